@@ -291,6 +291,7 @@ def _work(item):
             res = fn(H, spec)
             F.detour(H)
             F.morph(H)
+            F.rename(H)  # one node replaced by a node with a new label: same counts, another node set
             res = list(res) + [(m, "[same object after remove+re-add of its first node and edge] " + msg) for m, msg in fn(H, spec)]
         except RecursionError:
             raise
@@ -365,6 +366,8 @@ def family(tier):
             if eids is None:
                 continue
             items.append(("H", F.relabel(s, node_map=nm, edge_ids=eids)))
+    for w in F.wide():  # more than ten nodes and edges
+        items.append(("H", w))
     for s in F.directed([1, 2, 3], 2 if q else 2, isolated=not q):
         items.append(("D", s))
         if len(s["edges"]) == 2:
